@@ -119,6 +119,8 @@ def gen_ext_table(rng, cfg, number, method=None, opts=None):
         'dupfinal': rng.random() < 0.03, 'extra_codes': rng.random() < 0.5,
     }
     o.update(opts)
+    if not o['iter0'] and o['niter'] == 0 and not o['burn'] and not o['final']:
+        o['final'] = True        # a table always reports something
     rows = []
     its = []
     if o['burn']:
@@ -427,12 +429,28 @@ def gen_rspec(rng, force=None):
         elif 'se' not in opts:
             opts['se'] = rng.random() < 0.75
         ext.append(gen_ext_table(rng, cfg, k + 1, method=m, opts=opts))
+    if force.get('design', rng.random() < 0.14):
+        # a second $PROBLEM with $DESIGN: an optimal-design evaluation table closes the file (pheno_design.ext);
+        # pharmpy skips it for estimates and objective value but takes standard errors / matrices from it
+        dopts = {'dupfinal': False, 'iter0': False, 'niter': 0, 'burn': False, 'final': True, 'design': 'D-OPTIMALITY',
+                 'se': rng.random() < 0.8, 'extra_codes': False}
+        t = gen_ext_table(rng, cfg, nsteps + 1, method=('First Order (Evaluation)', 'MINIMUM VALUE OF OBJECTIVE FUNCTION', 'OBJ'), opts=dopts)
+        t['title']['ids'][0] = 2
+        for e in ext:
+            e['rows'] = [r for r in e['rows'] if r[0] != I(-1000000001) and r[0] != I(-1000000005)]
+        ext.append(t)
     has_cov = any(r[0] == I(-1000000001) for r in ext[-1]['rows'])
-    covfiles = rng.choice(['all', 'all', 'cov', 'cor', 'coi', 'none']) if has_cov else 'none'
+    covfiles = rng.choice(['all', 'cov', 'cov', 'cor', 'coi', 'coi', 'covcoi', 'covcoi', 'none']) if has_cov else 'none'
     neta = sum(b['size'] for b in cfg['omegas'])
     phi = [gen_phi_table(rng, cfg, k + 1, method=m, nids=3) for k, m in enumerate(methods)] if rng.random() < 0.8 else None
+    if phi is not None and ext[-1]['title'].get('design') is not None:
+        t = gen_phi_table(rng, cfg, nsteps + 1, method=('First Order (Evaluation)', '', ''), nids=3)
+        t['title']['design'] = 'D-OPTIMALITY'
+        t['title']['ids'][0] = 2
+        phi.append(t)
     covstatus = has_cov and rng.random() < 0.9
     est_recs = [EST_RECORDS[m[0]] for m in methods]
+    spec_design = ext[-1]['title'].get('design') is not None
     tab = None
     table_opts = []
     if has_cov:
@@ -459,5 +477,5 @@ def gen_rspec(rng, force=None):
     model, names = gen_model_text(cfg, est_recs, table_opts)
     spec = {'level': 'run', 'cfg': cfg, 'model': model, 'names': names, 'ext': ext, 'phi': phi,
             'covfiles': covfiles, 'covstatus': covstatus, 'tab': tab,
-            'covseed': rng.randrange(10 ** 6), 'lst': rng.random() < 0.93}
+            'covseed': rng.randrange(10 ** 6), 'lst': True}
     return spec
